@@ -22,6 +22,9 @@ def expr_place(body, place, depth=0, stop=()):
     if not proj:
         return expr_local(body, l, depth, stop)
     if any(e["k"] == "deref" for e in proj):
+        pv = _promoted_value(body, l)
+        if pv is not None and len(proj) == 1:
+            return pv
         return ("load", targets_str(body, place), place["ty"])
     # projections of a local value (tuple/struct fields, enum payloads)
     e = expr_local(body, l, depth + 1, stop)
@@ -35,6 +38,31 @@ def expr_place(body, place, depth=0, stop=()):
         else:
             e = ("proj", e, k)
     return e
+
+
+def _promoted_value(body, l):
+    """if local l is (a copy of) a reference to a promoted constant, the expression of the constant's value"""
+    seen = 0
+    while seen < 5:
+        seen += 1
+        ds = mir.defs(body).get(l, [])
+        if len(ds) != 1 or ds[0][0] != "stmt":
+            return None
+        rv = ds[0][3]["rv"]
+        if rv["k"] == "use" and rv["op"]["k"] == "const" and "promoted" in rv["op"]:
+            pb = body.get("promoted", [])
+            i = rv["op"]["promoted"]
+            if i < len(pb):
+                e = expr_local(pb[i], 0)
+                if e and e[0] == "ref":
+                    return e[1]
+                return ("promoted", e)
+            return None
+        if rv["k"] == "use" and rv["op"]["k"] in ("copy", "move") and not rv["op"]["place"]["p"]:
+            l = rv["op"]["place"]["l"]
+            continue
+        return None
+    return None
 
 
 def expr_local(body, l, depth=0, stop=()):
@@ -61,6 +89,10 @@ def expr_local(body, l, depth=0, stop=()):
 def expr(body, op, depth=0, stop=()):
     k = op["k"]
     if k == "const":
+        if "promoted" in op:
+            pb = body.get("promoted", [])
+            if op["promoted"] < len(pb):
+                return ("promoted", expr_local(pb[op["promoted"]], 0))
         if "fn" in op:
             c = op["callee"]
             return ("fn", c.get("resolved") or c["decl"])
@@ -82,6 +114,10 @@ def expr_rv(body, rv, depth=0, stop=()):
         pl = rv["place"]
         if not pl["p"]:
             return ("ref", expr_local(body, pl["l"], depth + 1, stop))
+        if len(pl["p"]) == 1 and pl["p"][0]["k"] == "deref":
+            pv = _promoted_value(body, pl["l"])
+            if pv is not None:
+                return ("ref", pv)
         return ("refplace", targets_str(body, pl), pl["ty"])
     if k == "cast":
         return ("cast", rv["kind"], rv["from"], rv["to"], expr(body, rv["op"], depth + 1, stop))
@@ -191,4 +227,6 @@ def show(e, depth=0):
         return "discr(%s)" % show(e[1])
     if h == "fn":
         return "fn:" + e[1]
+    if h == "promoted":
+        return "const " + show(e[1])
     return str(e)
